@@ -256,6 +256,27 @@ func factsAt(in ssa.Instruction) map[string]bool {
 	return out
 }
 
+// unlockBetweenInstrs: some path from instruction a to instruction b passes a
+// (non-deferred) Unlock/RUnlock call.
+func unlockBetweenInstrs(a, b ssa.Instruction) bool {
+	f := a.Parent()
+	for _, blk := range f.Blocks {
+		for _, x := range blk.Instrs {
+			ci, ok := x.(*ssa.Call)
+			if !ok || x == a || x == b {
+				continue
+			}
+			if _, op, _ := lockOp(ci); op != -1 {
+				continue
+			}
+			if canReach(a, x) && canReach(x, b) {
+				return true
+			}
+		}
+	}
+	return false
+}
+
 func isTerminator(in ssa.Instruction) bool {
 	switch in.(type) {
 	case *ssa.If, *ssa.Jump, *ssa.Return, *ssa.Panic:
@@ -290,6 +311,28 @@ func unlockBetween(s *ssa.BasicBlock, in ssa.Instruction) bool {
 		}
 	}
 	return false
+}
+
+// dominatingConds: the conditions of the branches one of whose edges must be
+// taken to reach in (the value tested, whatever the polarity).
+func dominatingConds(in ssa.Instruction) []ssa.Value {
+	var out []ssa.Value
+	b := in.Block()
+	for _, blk := range b.Parent().Blocks {
+		if len(blk.Instrs) == 0 {
+			continue
+		}
+		iff, ok := blk.Instrs[len(blk.Instrs)-1].(*ssa.If)
+		if !ok || blk.Succs[0] == blk.Succs[1] {
+			continue
+		}
+		for i, s := range blk.Succs {
+			if s.Dominates(b) && onlyEntersFrom(s, blk, i) {
+				out = append(out, iff.Cond)
+			}
+		}
+	}
+	return out
 }
 
 // onlyEntersFrom: every predecessor of s other than (from) is dominated by s
